@@ -25,6 +25,10 @@ func (s *Server) serveStream(ctx context.Context, r io.Reader, w io.Writer, req 
 		}
 		emptySchema := arrow.NewSchema(nil, nil)
 		s.logIPCWriteErr("error-response", req.Method, writeErrorResponse(w, emptySchema, handlerErr, s.serverID, req.RequestID, s.debugErrors))
+		// The client has already opened its input stream (it writes before it
+		// reads): drain it, as every other init-failure exit below does, so it
+		// is not read as the next request.
+		drainInputStream(r)
 		return handlerErr, nil
 	}
 
